@@ -33,11 +33,16 @@ def suite(wt):
 
 
 def main():
-    prop = sys.argv[1]
-    wt = f"/tmp/seed/{prop}"
-    for k in sys.argv[2:]:
-        src = f"/tmp/seedout/{prop}/m{k}"
-        dst = f"/verif/seeded/{prop}-m{k}"
+    args = sys.argv[1:]
+    rnd = ""
+    if args[0] == "--round":
+        rnd = args[1]
+        args = args[2:]
+    prop = args[0]
+    wt = f"/tmp/seed{rnd}/{prop}"
+    for k in args[1:]:
+        src = f"/tmp/seedout{rnd}/{prop}/m{k}"
+        dst = f"/verif/seeded/{prop}-{'r' + rnd if rnd else ''}m{k}"
         meta = {"property": prop, "source": "independent sub-agent given only the property record and a scratch worktree", "confirmed": False}
         rc, out = sh("git status --short", cwd=wt)
         if out.strip():
@@ -80,6 +85,11 @@ def main():
             sh("git checkout -- .", cwd="/repo")
         meta["checks_reporting"] = caught
         meta["caught_by_own_property_check"] = prop in caught and caught[prop]["exit"] == 1
+        old_meta = json.load(open(f"{dst}/meta.json")) if os.path.exists(f"{dst}/meta.json") else {}
+        meta["first_pass"] = old_meta.get("first_pass") or (
+            "reported" if meta["caught_by_own_property_check"] and caught[prop]["rules"] else (f"only by {sorted(p for p, v in caught.items() if v['rules'])[0]}" if any(v["rules"] for v in caught.values()) else "missed")
+        )
+        meta["round"] = int(rnd) if rnd else 1
         notes = open(f"{src}/notes.md").read() if os.path.exists(f"{src}/notes.md") else ""
         meta["needs_to_manifest"] = notes.strip()[:1500]
         if not meta["confirmed"]:
